@@ -8,6 +8,7 @@ import (
 	"os"
 	"path/filepath"
 	"regexp"
+	"runtime/pprof"
 	"strings"
 	"time"
 
@@ -57,9 +58,19 @@ func worker(args []string) {
 	fmt.Sscan(args[1], &seed)
 	tier, dir, outF := args[2], args[3], args[4]
 	c := &vf.Ctx{ID: "C25", Seed: seed, Tier: tier}
-	h := runHistory(c, caseNo, dir)
+	h, cleanup := runHistory(c, caseNo, dir)
 	b, _ := json.Marshal(h)
 	os.WriteFile(outF, b, 0644)
+	// Shutdown is not part of the property; the observations are on disk.
+	done := make(chan struct{})
+	go func() { cleanup(); close(done) }()
+	select {
+	case <-done:
+	case <-time.After(60 * time.Second):
+		logf("close watchdog: shutdown still running after 60 s; goroutines follow")
+		pprof.Lookup("goroutine").WriteTo(os.Stderr, 1)
+	}
+	os.Exit(0)
 }
 
 func logf(format string, a ...any) {
@@ -211,7 +222,8 @@ func resultsAgree(rq *reqSpec, got []hcluster.Result, want []sqlref.RefRes) stri
 	return ""
 }
 
-func runHistory(c *vf.Ctx, caseNo int, dir string) (h histOut) {
+func runHistory(c *vf.Ctx, caseNo int, dir string) (h histOut, cleanup func()) {
+	cleanup = func() {}
 	cs := genCase(c, caseNo)
 	h.Spec = cs
 	w := &world{cs: cs, insts: map[string]int{}, pending: map[string]*cdcInst{}, cdc: map[string]*cdcInst{}}
@@ -228,11 +240,11 @@ func runHistory(c *vf.Ctx, caseNo int, dir string) (h histOut) {
 	cl := hcluster.New(filepath.Join(dir, "cluster"))
 	w.cl = cl
 	cl.HTTP.Timeout = 90 * time.Second
-	defer func() {
+	cleanup = func() {
 		w.stopAll()
 		cl.Close()
 		ep.srv.Close()
-	}()
+	}
 	for i := 1; i <= 3; i++ {
 		if _, err := w.addNode(fmt.Sprintf("n%d", i)); err != nil {
 			h.SetupErr = fmt.Sprintf("add node %d: %v", i, err)
@@ -248,7 +260,6 @@ func runHistory(c *vf.Ctx, caseNo int, dir string) (h histOut) {
 		h.SetupErr = "shadow: " + err.Error()
 		return
 	}
-	defer func() { sh.close() }()
 
 	leaders := map[string]bool{}
 	noteLeader := func() {
@@ -385,6 +396,7 @@ func runHistory(c *vf.Ctx, caseNo int, dir string) (h histOut) {
 					h.Inconcl = "restart failed: " + err.Error()
 					return
 				}
+				desc += fmt.Sprintf(":dropped_cdc_events=%d", droppedCDC())
 			case "snapshot":
 				if victim == nil {
 					victim = live[0]
@@ -490,6 +502,15 @@ func runHistory(c *vf.Ctx, caseNo int, dir string) (h histOut) {
 		}
 	}
 	return
+}
+
+func droppedCDC() int64 {
+	if em, ok := expvar.Get("db").(*expvar.Map); ok {
+		if iv, ok := em.Get("dropped_cdc_events").(*expvar.Int); ok {
+			return iv.Value()
+		}
+	}
+	return -1
 }
 
 func firstDiff(a, b string) string {
